@@ -39,6 +39,8 @@ def gen_records(rng: random.Random) -> list[dict]:
             off = max(0, pos - rng.randint(1, 8))       # overlapping
         else:
             off = rng.choice([0, 1, 0xFFFF, 0x10000, 0xFFFFFF - 70000, rng.randrange(1 << 23)])
+        if off >= (1 << 24) - 0x10000:
+            off = rng.randrange(1 << 23)      # keep offset + length inside the 24-bit space of the format
         if off == 0x454F46:
             off += 1
         c = rng.random()
